@@ -88,6 +88,9 @@ SPEC = {
     "R1": "[OP[1:-1]]",
     "R4": f"[(split({M},',')[0] minus '(')+split({M},',')[1]*(split({M},',')[2] minus ')')+(OP minus {M})]",
     "Rk": f"[{M}[1:-1]+(OP minus {M})]",
+    # the scale-less forms of 16-bit addressing, (a,b) and k(a,b): only on the path where the parenthesised part has two pieces
+    "R3b": f"[(split(OP,',')[0] minus '(')+(split(OP,',')[1] minus ')')]",
+    "R4b": f"[(split({M},',')[0] minus '(')+(split({M},',')[1] minus ')')+(OP minus {M})]",
     "R$": "OP[1:]",
     "ID": "OP",
 }
@@ -119,8 +122,9 @@ def is_normal(path: Path) -> bool:
             continue
         if isinstance(key, tuple) and key[0] == "truth" and "search" in str(key) and not val:
             return False   # the parenthesised part exists when '(' and ')' are present (AT&T forms)
-        if isinstance(key, tuple) and key[0] == "eq" and "len(" in str(key) and not val:
-            return False   # three pieces (AT&T forms)
+    lens = [val for key, val, _ in path.conds if isinstance(key, tuple) and key[0] == "eq" and "len(" in str(key)]
+    if lens and not any(lens):
+        return False       # a number of comma-separated pieces that no AT&T form has (neither two nor three)
     return True
 
 
@@ -167,3 +171,8 @@ def folded_constant(I: Interp, module: str, name: str) -> str:
     if not (isinstance(v, Str) and v.is_concrete()):
         raise AnalysisError(f"constant {module}.{name} does not fold to a string")
     return v.text()
+
+
+# rows that may appear next to the main row of a class (decided by the number of comma-separated pieces, which the
+# syntactic class does not fix); the listed forms themselves are decided exactly by the shape rules (shapes.py)
+ALSO = {"R3": ["R3b"], "R4": ["R4b"]}
